@@ -19,8 +19,8 @@ let parse_op tok =
 let si s i = string_of_int (int_of_nat s) ^ "." ^ string_of_z i
 let cnt n = "#" ^ string_of_int (int_of_nat n)
 let show = function
-  | Model.OAddr (s, i, _, n) -> "A" ^ si s i ^ cnt n
-  | Model.ORes (s, i, _, n) -> "R" ^ si s i ^ cnt n
+  | Model.OAddr (s, i, m, n) -> "A" ^ si s i ^ (if m then "" else "!") ^ cnt n
+  | Model.ORes (s, i, m, n) -> "R" ^ si s i ^ (if m then "" else "!") ^ cnt n
   | Model.OKept (s, i) -> "K" ^ si s i
   | Model.ORet n -> "r" ^ cnt n
   | Model.ONoRes -> "N"
@@ -29,6 +29,7 @@ let show = function
   | Model.OUsed (c, n) -> "U" ^ string_of_z c ^ cnt n
   | Model.OLoad -> "L"
   | Model.OErrOut n -> "Eout" ^ cnt n
+  | Model.OErrWrite n -> "Ewr" ^ cnt n
   | Model.OExc n -> "X" ^ cnt n
   | Model.OAssert -> "ASSERT"
   | Model.OUb -> "UB"
@@ -42,18 +43,31 @@ let model _ l = match words l with
   | _ -> "BADCASE"
 (* the property's predicate on what the implementation returned: the addresses handed out (A = returned by
    getnewaddress / getrawchangeaddress, K = a reserved change address that was kept) are pairwise distinct *)
-let holds _ _ impl =
+let strip body =
+  let body = (match String.index_opt body '#' with Some k -> String.sub body 0 k | None -> body) in
+  if body <> "" && body.[String.length body - 1] = '!' then String.sub body 0 (String.length body - 1) else body
+let holds _ case impl =
   let toks = words impl in
   let rec upto = function [] -> [] | "|" :: _ -> [] | x :: r -> x :: upto r in
   let toks = upto toks in
-  if List.exists (fun t -> String.length t >= 5 && String.sub t 0 5 = "CRASH") toks || toks = [] then "fail driver crashed" else
+  if toks = [] then "fail no output" else
   let handed = List.filter_map (fun t ->
-      if String.length t > 1 && (t.[0] = 'A' || t.[0] = 'K') && t <> "K-" then begin
-        let body = String.sub t 1 (String.length t - 1) in
-        let body = (match String.index_opt body '#' with Some k -> String.sub body 0 k | None -> body) in
+      if String.length t > 1 && (t.[0] = 'A' || t.[0] = 'K') then begin
+        let body = strip (String.sub t 1 (String.length t - 1)) in
         match String.split_on_char '.' body with
         | [s; i] -> (try Some (nat_of_int (int_of_string s), z_of_string i) with _ -> Some (nat_of_int 99, z_of_int (Hashtbl.hash body)))
         | _ -> Some (nat_of_int 99, z_of_int (Hashtbl.hash body))
       end else None) toks in
-  if Model.holds_distinct handed then "ok" else "fail repeat: the same address was handed out twice"
+  if Model.holds_distinct handed then "ok" else
+  (* classify: did an address-issuing call whose descriptor write was made to fail still return an address? *)
+  let mouts = (match words case with
+      | "kp" :: size :: ops -> fst (Model.run (Model.init (z_of_string size)) (List.filter_map parse_op ops))
+      | _ -> []) in
+  let rec unchecked ms ts = match ms, ts with
+    | Model.OErrWrite _ :: _, t :: _ when String.length t > 0 && (t.[0] = 'A' || t.[0] = 'R') -> true
+    | _ :: mr, _ :: tr -> unchecked mr tr
+    | _ -> false in
+  let toks' = toks in
+  if unchecked mouts toks' then "fail unchecked-write: an address-issuing call returned an address although the WriteDescriptor that persists next_index failed; after the restart the same address was handed out again"
+  else "fail repeat: the same address was handed out twice"
 let () = main_loop ~model ~holds
